@@ -51,11 +51,11 @@ KINDS = ["unmapped", "readonly", "straddle", "straddle_ro"]
 POSITIONS = ["first", "middle", "last"]
 BACKENDS = ["python", "gcc"]
 MAXLINES = [50, 1]
-QUICK_GCC = ("mov_store", "mov_load", "add_mem", "push_mem", "call_mem", "movsd")
+QUICK_GCC = ("mov_store", "push_mem")
 
 
 class Arch(object):
-    pass
+    force_aligned = False
 
 
 def _x86():
@@ -63,20 +63,12 @@ def _x86():
     a.name = "x86_32"
     a.exts = ["JitCore_x86"]
     a.pc = "EIP"
-    a.template = """
-main:
-    ADD EDX, 0x1111
-    ADD EBP, EDX
-F:
-    %s
-cont:
-    ADD EDX, 0x100
-    XOR EBP, EDX
-done:
-    RET
-"""
+    a.attrib = 32
+    a.pre = ["ADD EDX, 0x1111", "ADD EBP, EDX"]
+    a.post = ["ADD EDX, 0x100", "XOR EBP, EDX"]
+    a.end = ["RET"]
     a.regs0 = {"EAX": 0x0A0B0C0D, "ECX": 0x11223344, "EDX": 5, "EBP": 7, "EBX": G1, "ESI": G1, "EDI": G2, "ESP": GSTK}
-    # (name, asm, [(site, class, faulting access r/w/rw, size, {reg: ("A"|"G..", delta)}, pointer slot at A?)])
+    # (name, asm, [(site, class, faulting access r/w/rw, size, {pointer register: delta to the fault address}, pointer to cont stored there?)])
     a.insns = [
         ("mov_store", "MOV DWORD PTR [EBX], ECX", [("op", "store", "w", 4, {"EBX": 0}, False)]),
         ("mov_load", "MOV ECX, DWORD PTR [EBX]", [("op", "load", "r", 4, {"EBX": 0}, False)]),
@@ -95,16 +87,81 @@ done:
                             ("dst", "two-mem:store-faults", "w", 4, {"EDI": 0}, False)]),
         ("pop_mem", "POP DWORD PTR [EBX]", [("stack", "two-mem:load-faults", "r", 4, {"ESP": 0}, False),
                                             ("dst", "two-mem:store-faults", "w", 4, {"EBX": 0}, False)]),
+        ("ret", "RET", [("stack", "stack-load", "r", 4, {"ESP": 0}, True)]),
         ("mov_store16", "MOV WORD PTR [EBX], CX", [("op", "store", "w", 2, {"EBX": 0}, False)]),
         ("cmp_mem", "CMP DWORD PTR [EBX], ECX", [("op", "load", "r", 4, {"EBX": 0}, False)]),
     ]
-    # CALL [EBX] with a good EBX needs a pointer to `cont` in the good slot as well
-    a.good_ptr_slots = [G1]
-    a.flow_breakers = {"call_mem"}
+    # CALL [EBX] / RET with a good pointer need the address of `cont` in the good slots as well
+    a.good_ptr_slots = [G1, GSTK]
+    a.flow_breakers = {"call_mem", "ret"}
     return a
 
 
-ARCHS = {"x86_32": _x86}
+def _arm():
+    a = Arch()
+    a.name = "arml"
+    a.exts = ["JitCore_arm"]
+    a.pc = "PC"
+    a.attrib = "l"
+    a.pre = ["ADD R4, R4, 0x11", "ADD R5, R5, R4"]
+    a.post = ["ADD R4, R4, 0x100", "EOR R5, R5, R4"]
+    a.end = ["BX LR"]
+    a.regs0 = {"R0": 0x0A0B0C0D, "R1": 0x11223344, "R2": G1, "R3": 9, "R4": 5, "R5": 7, "SP": GSTK}
+    a.insns = [
+        ("str", "STR R1, [R2]", [("op", "store", "w", 4, {"R2": 0}, False)]),
+        ("ldr", "LDR R3, [R2]", [("op", "load", "r", 4, {"R2": 0}, False)]),
+        ("str_writeback", "STR R1, [R2, 0x4]!", [("op", "store+writeback", "w", 4, {"R2": -4}, False)]),
+        ("ldr_postindex", "LDR R3, [R2], 0x4", [("op", "load+writeback", "r", 4, {"R2": 0}, False)]),
+    ]
+    a.good_ptr_slots = []
+    a.flow_breakers = set()
+    return a
+
+
+def _mips():
+    a = Arch()
+    a.name = "mips32l"
+    a.exts = ["JitCore_mips32"]
+    a.pc = "PC"
+    a.attrib = "l"
+    a.pre = ["ADDIU T0, T0, 0x11", "ADDU T1, T1, T0"]
+    a.post = ["ADDIU T0, T0, 0x100", "XOR T1, T1, T0"]
+    a.end = ["JR RA", "NOP"]
+    a.regs0 = {"A0": 0x0A0B0C0D, "A1": 0x11223344, "A2": G1, "A3": 9, "T0": 5, "T1": 7, "SP": GSTK}
+    a.insns = [
+        ("sw", "SW A1, 0x0(A2)", [("op", "store", "w", 4, {"A2": 0}, False)]),
+        ("lw", "LW A3, 0x0(A2)", [("op", "load", "r", 4, {"A2": 0}, False)]),
+        ("sb", "SB A1, 0x0(A2)", [("op", "store", "w", 1, {"A2": 0}, False)]),
+        ("lhu", "LHU A3, 0x0(A2)", [("op", "load", "r", 2, {"A2": 0}, False)]),
+    ]
+    a.good_ptr_slots = []
+    a.flow_breakers = set()
+    return a
+
+
+def _mep():
+    a = Arch()
+    a.name = "mepb"       # the little-endian MeP assembler of miasm is unusable (mn_mep.asm fails in mode "l")
+    a.exts = ["JitCore_mep"]
+    a.pc = "PC"
+    a.attrib = "b"
+    a.pre = ["ADD R4, 0x11", "ADD3 R5, R5, R4"]
+    a.post = ["ADD R4, 1", "XOR R5, R4"]
+    a.end = ["RET"]
+    a.regs0 = {"R0": 0x0A0B0C0D, "R1": 0x11223344, "R2": G1, "R3": 9, "R4": 5, "R5": 7, "SP": GSTK}
+    a.insns = [
+        ("sw", "SW R1, (R2)", [("op", "store", "w", 4, {"R2": 0}, False)]),
+        ("lw", "LW R3, (R2)", [("op", "load", "r", 4, {"R2": 0}, False)]),
+        ("sb", "SB R1, (R2)", [("op", "store", "w", 1, {"R2": 0}, False)]),
+        ("lh", "LH R3, (R2)", [("op", "load", "r", 2, {"R2": 0}, False)]),
+    ]
+    a.good_ptr_slots = []
+    a.flow_breakers = set()
+    a.force_aligned = True      # MeP loads/stores ignore the low address bits: an access cannot straddle
+    return a
+
+
+ARCHS = {"x86_32": _x86, "arml": _arm, "mips32l": _mips, "mepb": _mep}
 _arch_cache = {}
 
 
@@ -114,11 +171,34 @@ def arch_of(name):
     return _arch_cache[name]
 
 
-def kinds_for(access, size):
+def assemble(a, lines, base):
+    """Assemble label-free instructions one by one with miasm's own assembler; returns (bytes, [offsets])."""
+    from miasm.analysis.machine import Machine
+    from miasm.core.locationdb import LocationDB
+    m = Machine(a.name)
+    loc_db = LocationDB()
+    out = b""
+    offs = []
+    for line in lines:
+        if a.name.startswith("mep"):
+            mn = m.mn()
+            ins = mn.fromstring(line, a.attrib)
+            ins.mode = a.attrib
+            cands = mn.asm(ins)
+        else:
+            ins = m.mn.fromstring(line, loc_db, a.attrib)
+            ins.offset = base + len(out)
+            cands = m.mn.asm(ins)
+        offs.append(base + len(out))
+        out += cands[0]
+    return out, offs
+
+
+def kinds_for(access, size, aligned=False):
     ks = ["unmapped"]
     if "w" in access:
         ks.append("readonly")
-    if size >= 2:
+    if size >= 2 and not aligned:
         ks.append("straddle")
         if "w" in access:
             ks.append("straddle_ro")
@@ -137,11 +217,13 @@ def all_cases(arch_names, quick=False):
         a = arch_of(an)
         for ii, (iname, asm, sites) in enumerate(a.insns):
             for si, site in enumerate(sites):
-                for kind in kinds_for(site[2], site[3]):
+                for kind in kinds_for(site[2], site[3], a.force_aligned):
                     for be in BACKENDS:
                         if quick and be == "gcc" and iname not in QUICK_GCC:
-                            continue        # every new block costs a C compilation: the quick tier compiles 6 instructions
+                            continue        # every new block costs a C compilation: the quick tier compiles 2 instructions
                         for ml in MAXLINES:
+                            if quick and be == "gcc" and ml == 1:
+                                continue
                             for pos in (POSITIONS if ml != 1 else ["middle"]):
                                 out.append((an, ii, si, kind, pos, be, ml))
     return out
@@ -153,10 +235,13 @@ _prog_cache = {}
 
 
 def program(a, ii):
+    """(code bytes, {main, F, cont, done}, instruction offsets) of pre1; pre2; F: insn; cont: post1; post2; done: end."""
     key = (a.name, ii)
     if key not in _prog_cache:
-        from mc import jitprog as jp
-        code, labels, offs = jp.assemble(a.name, a.template % a.insns[ii][1], base=CODE)
+        lines = a.pre + [a.insns[ii][1]] + a.post + a.end
+        code, offs = assemble(a, lines, CODE)
+        n = len(a.pre)
+        labels = {"main": CODE, "F": offs[n], "cont": offs[n + 1], "done": offs[n + 1 + len(a.post)]}
         _prog_cache[key] = (code, labels, offs)
     return _prog_cache[key]
 
@@ -175,7 +260,6 @@ def image(a, ii, site, kind):
         p[addr - P1:addr - P1 + 4] = v.to_bytes(4, "little")
     for slot in a.good_ptr_slots:
         put32(slot, cont)
-    put32(GSTK, cont)              # a RET / POP on the good stack
     if site[5]:
         put32(A, cont)
     return bytes(p[:PSIZE]), bytes(p[PSIZE:]), regs, A
@@ -414,7 +498,7 @@ def _shard(cases):
         for sig, what in probs:
             vs.append(violation(sig, what, {"case": list(case)}))
         cck = (case[0], case[1], case[2], case[3], case[5], case[6])
-        if cck not in seen_cc:
+        if case[5] != "python" and cck not in seen_cc:
             seen_cc.add(cck)
             stats["crosschecks"] += 1
             for sig, what in fault_free_crosscheck(*cck):
@@ -441,7 +525,8 @@ def _gcc_jobs(cases):
         F, cont, done = labels["F"], labels["cont"], labels["done"]
         breaks = a.insns[ii][0] in a.flow_breakers
         wanted = [(CODE, F), (CODE, cont), (CODE, done), (F, cont), (F, done), (cont, done)]
-        wanted += [(o, offs[k + 1]) for k, o in enumerate(offs) if o < done]
+        if any(c[0] == an and c[1] == ii and c[5] == "gcc" and c[6] == 1 for c in cases):
+            wanted += [(o, offs[k + 1]) for k, o in enumerate(offs) if o < done]
         for start, end in wanted:
             if breaks and start <= F < end:
                 end = cont
@@ -504,7 +589,7 @@ def _run(ctx):
         "cases_per_arch": per_arch,
         "bounds": {"archs": names, "instructions": {n: [i[0] for i in arch_of(n).insns] for n in names},
                    "fault_kinds": KINDS, "positions": POSITIONS, "backends": BACKENDS, "jit_maxline": MAXLINES,
-                   "gcc_instructions": list(QUICK_GCC) if ctx.quick else "all"},
+                   "gcc_instructions": list(QUICK_GCC) if ctx.quick else "all", "gcc_jit_maxline": [50] if ctx.quick else MAXLINES},
     }
 
 
